@@ -5,10 +5,7 @@ From C21 Require Import C21Spec C21_gen C21Proofs.
 Import ListNotations.
 Local Open Scope R_scope.
 
-Definition id_map (k : nat) : nat := k.
-(* PIPE convention in 2D: the second and third material axes are exchanged, the in-plane shear is the (1,3) shear *)
-Definition pipe_map (k : nat) : nat := match k with 1 => 2 | 2 => 1 | 3 => 4 | _ => k end%nat.
-Definition keep2 (k : nat) : bool := negb (Nat.eqb k 2).
+(* id_map, pipe_map, keep2: see C21Spec.v *)
 
 Ltac red_entry D3 D :=
   unfold el, id_map, pipe_map, keep2; cbn [Nat.mul Nat.add Nat.ltb Nat.leb Nat.eqb andb negb];
